@@ -38,8 +38,9 @@ def worktree():
 def rm_worktree(wt):
     sh(["git", "-C", "/repo", "worktree", "remove", "--force", wt])
     shutil.rmtree(wt, ignore_errors=True)
-    for d in glob.glob(os.path.join(ROOT, ".build", "alt-*")):
-        shutil.rmtree(d, ignore_errors=True)
+    import hashlib
+    tag = hashlib.sha1(os.path.abspath(wt).encode()).hexdigest()[:10]  # same naming as tools/vcheck.py build_dir()
+    shutil.rmtree(os.path.join(ROOT, ".build", "alt-" + tag), ignore_errors=True)
 
 
 def apply(wt, mutdir):
@@ -94,7 +95,11 @@ def verify(mutdir):
         apply(wt, mutdir)
         rc1, out1, mod = run_demo(wt, mutdir)
         print("demo WITH change:    rc=%d" % rc1)
-        rc2, out2 = sh("go build ./... && go test -vet=off -count=1 ./...", cwd=os.path.join(wt, mod), timeout=1800)
+        for attempt in range(3):
+            # the storage suite's temp directory is named after the current second: concurrent runs can collide
+            rc2, out2 = sh("go build ./... && go test -vet=off -count=1 ./...", cwd=os.path.join(wt, mod), timeout=1800)
+            if rc2 == 0:
+                break
         print("existing suite WITH change: rc=%d" % rc2)
         ok = rc0 == 0 and rc1 != 0 and rc2 == 0
         if not ok:
@@ -110,25 +115,17 @@ def check(mutdir, props, tier):
     res = {}
     try:
         apply(wt, mutdir)
-        env = dict(ENV, VERIF_REPO=wt)
+        scratch = wt + "-out"
+        env = dict(ENV, VERIF_REPO=wt, VERIF_EVIDENCE_ROOT=scratch)
         for p in props:
-            # keep evidence and replays of the real tree untouched
-            ev = os.path.join(ROOT, "evidence", p + ".json")
-            bak = open(ev).read() if os.path.exists(ev) else None
-            before = set(glob.glob(os.path.join(ROOT, "replays", p, "*")))
+            # evidence and failing cases of this run go to a scratch directory: /verif/evidence and /verif/replays
+            # describe /repo only
             rc, out = sh([os.path.join(ROOT, "run"), p, tier], cwd=ROOT, env=env, timeout=7200)
-            new = sorted(set(glob.glob(os.path.join(ROOT, "replays", p, "*"))) - before)
             lines = [l for l in out.splitlines() if l.startswith(("VIOLATION", "  ", "INCONCLUSIVE", "OK ", "KNOWN"))]
             print("== %s %s on mutant: rc=%d" % (p, tier, rc))
             print("\n".join(lines[:12]))
-            for f in new:
-                if os.path.basename(f).startswith("new-"):  # only what the run itself saved
-                    os.remove(f)
-            if bak is not None:
-                open(ev, "w").write(bak)
-            elif os.path.exists(ev):
-                os.remove(ev)
             res[p] = rc
+        shutil.rmtree(scratch, ignore_errors=True)
         return res
     finally:
         rm_worktree(wt)
